@@ -73,8 +73,13 @@ func genC10(o *hx.Out, tier string) {
 						for q := 0; q < 1+r.Intn(5); q++ {
 							data = append(data, byte(r.Intn(253)))
 						}
-					case 1: // complete frame, wrong checksum
-						fr := validFrame(r, drw, hx.RandMessage(r, d.Messages[0], 2), true, inKey)
+					case 1: // complete frame, wrong checksum (on links without a key the sender may sign all the same:
+						// what the reader saw of a refused frame must not show in the frames after it)
+						ck := inKey
+						if !keyed && r.Intn(2) == 0 {
+							ck = frame.NewV2Key([]byte("a sender that signs"))
+						}
+						fr := validFrame(r, drw, hx.RandMessage(r, d.Messages[0], 2), true, ck)
 						bs := frameBytes(drw, fr)
 						bs[10+len(fr.GetMessage().(*message.MessageRaw).Payload)] ^= 0x55
 						data = append(data, bs...)
